@@ -47,6 +47,7 @@ pub struct Weights {
     pub get: u32,
     pub getmut: u32,
     pub getttl: u32,
+    pub gethold: u32,
     pub umc: u32,
     pub clear: u32,
     pub wait: u32,
@@ -67,6 +68,7 @@ impl Default for Weights {
             get: 14,
             getmut: 3,
             getttl: 3,
+            gethold: 1,
             umc: 2,
             clear: 2,
             wait: 2,
@@ -350,6 +352,10 @@ pub fn op_strategy(p: &Profile, cfg: &Config) -> BoxedStrategy<Op> {
             },
         ),
         (w.getttl, (0..nk).prop_map(|k| Op::GetTtl { k }).boxed()),
+        (
+            w.gethold,
+            (0..nk, proptest::sample::select(vec![0i64, 1, 1_000_000, 500_000_000, NS - 1, NS, NS + 1, 2 * NS, 10 * NS])).prop_map(|(k, dt)| Op::GetHold { k, dt }).boxed(),
+        ),
         (w.umc, umc_vals.prop_map(|m| Op::UpdateMaxCost { m }).boxed()),
         (w.clear, (0usize..4).prop_map(|pre| Op::Clear { pre }).boxed()),
         (w.wait, Just(Op::Wait).boxed()),
